@@ -521,3 +521,14 @@ package loader
 //@   ensures !(lex.lexEventType == lexeme.TypesShortcutBegin || lex.lexEventType == lexeme.KeyShortcutBegin || lex.lexEventType == lexeme.TypesShortcutEnd || lex.lexEventType == lexeme.MultiLineAnnotationBegin
 //@             || lex.lexEventType == lexeme.MultiLineAnnotationEnd || lex.lexEventType == lexeme.InlineAnnotationBegin || lex.lexEventType == lexeme.InlineAnnotationEnd)
 //@           ==> normal && !result0 && result1 == nil && l.mode == old(l.mode) && l.rule == old(l.rule)
+
+// C13: a line end resets the per-line node count (which decides whether a rule may be
+// attached) and creates nothing; the end-of-schema marker is transparent
+//@ func (*nodeLoader).Load(lex)
+//@   props C13 C08
+//@   requires nl != nil && nl.nodesPerCurrentLineCount != nil && nl.schema != nil && lexWF(lex)
+//@   assumes tag(nl.leaf) != 0 ==> isNode(nl.leaf)
+//@   maypanic
+//@   modifies *
+//@   ensures lex.lexEventType == lexeme.NewLine ==> normal && tag(result) == 0 && *old(nl.nodesPerCurrentLineCount) == 0 && nl.leaf == old(nl.leaf)
+//@   ensures lex.lexEventType == lexeme.EndTop ==> normal && tag(result) == 0 && *old(nl.nodesPerCurrentLineCount) == old(*nl.nodesPerCurrentLineCount) && nl.leaf == old(nl.leaf)
